@@ -9,9 +9,10 @@ func init() {
 		"Decided: (1) the per-epoch record sequence counters are modified only by the atomic +1 of the single allocator and the state-import store; (2) every call path to the allocator holds Conn.lock exclusively, and record preparation plus the datagram write on the packet path run under Conn.writeLock; (3) in every function that allocates, the number stored in each recordlayer.Header / passed to the DTLS 1.3 seal is that allocation's result, with the same epoch, and only after the overflow error was checked; (5) the allocator and Header.Marshal refuse numbers above 2^48-1.",
 		"Scheduler behaviour and the semantics of sync/atomic; uniqueness across export/import is C19.",
 		ruleSeqSingleAllocator, ruleSeqLocks, ruleSeqToWire, ruleSeqNoWrap)
-	if false {
-		register("C08", "bounds (work in progress)", "", ruleBounds)
-	}
+	register("C08",
+		"Decided for everything reachable (CHA) from the network entry points, not following the emit roots: (1) every index / slice / encoding-binary access is proven in range by an abstract interpreter over linear inequalities (Fourier-Motzkin entailment, narrow unsigned arithmetic kept opaque so that wrap-arounds surface), or its unproven sub-goals are covered by an entry of the reviewed-safe table (function + expression shape + reason, one per site); (2) pointer-valued map elements are dereferenced only under a presence test, type assertions without comma-ok only on values of fixed dynamic type, no explicit panic, no division by an unproven divisor; (3) the two named buffering limits are tested before every growth and the reassembly counters move exactly with inserts and deletes; (4) undecodable datagrams and malformed fragments are dropped, not fatal; (5) the listener's packet ring consumes or can get past its head packet.",
+		"General deadlock freedom and loop termination, allocation volume and CPU, panics inside the standard library / x/crypto / pion/transport; the reviewed-safe entries are human judgements, listed in the evidence.",
+		ruleBounds, rulePanicClasses, ruleBufferLimits, ruleDropNotFail, rulePacketQueueProgress)
 	register("C10",
 		"Decided by symbolic byte-layout extraction of the straight-line encoders, compared with tables transcribed from the RFCs: AEAD additional data with and without connection ID, CBC MAC input with and without connection ID, explicit nonce placement, TLS 1.2 PRF labels / seed order / output lengths, key-block partition offsets as linear forms in (mac,key,iv), per-suite (mac,key,iv) constants and record cipher for every ID the registry hands out, client/server key mirror at every cipher construction.",
 		"P_hash iteration, HMAC/HKDF/AES/CCM/ChaCha internals (pinned by known-answer tests); loop-built nonces are covered by a dependency rule only.",
